@@ -17,6 +17,11 @@ def parseScore (p : Nat) (s : String) : R (Compress.Seq → Nat) :=
     match ← natList t with
     | [a, b, m] => if m = 0 then throw "bad-lin" else pure fun w => ((rank w * a + b) % 1000003) % m
     | _ => throw "bad-lin"
+  | ["big", t] => do
+    -- scores far above 2^32 (a narrowing of the cached score would reorder them)
+    match ← natList t with
+    | [a, b] => pure fun w => (let x := (rank w * a + b) % 1000003; x * 4294967296 + (1000003 - x))
+    | _ => throw "bad-big"
   | ["const"] => pure fun _ => 7
   | _ => throw s!"bad-score:{s}"
 
